@@ -1098,12 +1098,26 @@ void process_option_line(const std::string &config_line, const char *filename,
    else if (cmd == "using")
    {
       auto vargs = split_args(args[1], filename, is_varg_sep);
+      bool valid = (  vargs.size() == 2
+                   || vargs.size() == 3);
 
-      if (vargs.size() == 2)
+      // std::stoi() throws on anything that is not a (small) number
+      for (const auto &varg : vargs)
+      {
+         if (  varg.empty()
+            || varg.size() > 4
+            || varg.find_first_not_of("0123456789") != std::string::npos)
+         {
+            valid = false;
+         }
+      }
+
+      if (  valid
+         && vargs.size() == 2)
       {
          compat_level = option_level(std::stoi(vargs[0]), std::stoi(vargs[1]));
       }
-      else if (vargs.size() == 3)
+      else if (valid)
       {
          compat_level = option_level(std::stoi(vargs[0]),
                                      std::stoi(vargs[1]),
